@@ -18,8 +18,8 @@ import (
 
 type jsonGhost struct {
 	fail       bool
-	tcb        *pcs.TdxTcbInfo          // decoding the whole body as TdxTcbInfo
-	qe         *pcs.QeIdentity          // decoding the whole body as QeIdentity
+	tcb        *pcs.TdxTcbInfo            // decoding the whole body as TdxTcbInfo
+	qe         *pcs.QeIdentity            // decoding the whole body as QeIdentity
 	members    map[string]json.RawMessage // exact-key members of the top-level object
 	rawFail    bool
 	tcbInfo    *pcs.TcbInfo         // decoding this (member) document as TcbInfo
@@ -61,7 +61,13 @@ func m_jsonUnmarshal(data []byte, v any) error {
 		if g.fail || g.rawFail || g.members == nil {
 			return errParse
 		}
-		*t = g.members
+		// encoding/json adds to a non-nil map (it does not clear it)
+		if *t == nil {
+			*t = map[string]json.RawMessage{}
+		}
+		for k, v := range g.members {
+			(*t)[k] = v
+		}
 	case *pcs.TcbInfo:
 		if g.fail || g.tcbInfo == nil {
 			return errParse
